@@ -437,6 +437,82 @@ let lifecycle_case (toks : string list) : string =
       (if shown = [] then "-" else String.concat "," shown) !after (List.length st.M.peers)
   | _ -> "BADCASE"
 
+(* ---------------- client request/response matching (C15) ---------------- *)
+
+(* The harness' scripted server and the client's timers are replayed as a timed event list; the
+   model decides what each event does.  Times in ms. *)
+let client_case (toks : string list) : string =
+  match toks with
+  | "K" :: _threads :: m :: timeout :: w1 :: w2 :: rest ->
+    let m = int_of_string m and timeout = int_of_string timeout in
+    let beh w = if w = "-" then [] else List.filter (fun x -> x <> "") (String.split_on_char ',' w) in
+    let w1 = beh w1 and w2 = beh w2 in
+    let gap = match rest with [ g ] -> int_of_string g | _ -> timeout + 100 in
+    let behs = Array.of_list (w1 @ w2) in
+    let n = Array.length behs in
+    let sigma = ref M.kinit in
+    let gen = Array.make (m + 1) 0 in
+    (* pending events: (time, seq, kind) kind: `Issue | `Resp (c, gen, close_after) | `Tmo (c, r) *)
+    let evq = ref [] and seq = ref 0 in
+    let push t k = incr seq; evq := (t, !seq, k) :: !evq in
+    List.iteri (fun i _ -> push 0 (`Issue i)) w1;
+    List.iteri (fun i _ -> push gap (`Issue (List.length w1 + i))) w2;
+    let maxuse = ref 0 in
+    let inflight c = ((!sigma).M.conns (nat_of_int c)).M.inflight in
+    let started = Array.make n false in
+    let note_starts now =
+      (* requests newly in flight: schedule the server's answer and the client's timer *)
+      let used = ref 0 in
+      for c = 0 to m - 1 do
+        match inflight c with
+        | None -> ()
+        | Some r ->
+          incr used;
+          let r = int_of_nat r in
+          if r < n && not started.(r) then begin
+            started.(r) <- true;
+            if timeout > 0 then push (now + timeout) (`Tmo (c, r));
+            (match behs.(r) with
+             | "a" -> push (now + 1) (`Resp (c, gen.(c), false))
+             | "d" -> push (now + 60) (`Resp (c, gen.(c), false))
+             | "b" -> push (now + 30) (`Resp (c, gen.(c), false))
+             | "c" -> push (now + 15) (`Resp (c, gen.(c), false))
+             | "e" -> push (now + 250) (`Resp (c, gen.(c), false))
+             | "x" -> push (now + 1) (`Resp (c, gen.(c), true))
+             | "l" -> push (now + timeout + 300) (`Resp (c, gen.(c), false))
+             | _ -> ())
+          end
+      done;
+      if !used > !maxuse then maxuse := !used in
+    let step e = sigma := M.kstep true (nat_of_int m) !sigma e in
+    let guard = ref 0 in
+    while !evq <> [] && !guard < 100000 do
+      incr guard;
+      let sorted = List.sort compare !evq in
+      let (t, _, k) = List.hd sorted in
+      evq := List.tl sorted;
+      (match k with
+       | `Issue _ -> step M.KIssue
+       | `Resp (c, g, close_after) ->
+         if g = gen.(c) then begin
+           step (M.KRespond (nat_of_int c));
+           if close_after then begin
+             (* the hand-over may already have put a queued request on the connection: it is lost with it *)
+             gen.(c) <- gen.(c) + 1; step (M.KServerClose (nat_of_int c)) end
+         end
+       | `Tmo (c, r) ->
+         (match inflight c with
+          | Some r' when int_of_nat r' = r -> gen.(c) <- gen.(c) + 1; step (M.KTimeout (nat_of_int c))
+          | _ -> ()));
+      note_starts t
+    done;
+    let outcome i = match (!sigma).M.st (nat_of_int i) with
+      | M.Fulfilled0 a -> "F" ^ string_of_int (int_of_nat a)
+      | M.Rejected1 -> "R"
+      | _ -> "P" in
+    Printf.sprintf "K r=%s twice=0 maxconn=%d limit=%d" (String.concat "," (List.init n outcome)) !maxuse m
+  | _ -> "BADCASE"
+
 (* ---------------- wire forms (C05, C02) ---------------- *)
 
 let bytes_of_string (s : string) : M.ascii list = List.init (String.length s) (fun i -> ascii_of_int (Char.code s.[i]))
@@ -502,6 +578,7 @@ let () =
     | "transport" -> transport_case
     | "wire" -> wire_case
     | "lifecycle" -> lifecycle_case
+    | "client" -> client_case
     | _ -> failwith ("unknown area " ^ area) in
   try
     while true do
